@@ -1,14 +1,14 @@
 (* C05 (views part, work package E1) - forward results of the shape-changing / view / indexing ops match the
-   PyTorch / Python semantics they mirror; the documented argument combinations are exactly the accepted ones.
+   NumPy / PyTorch / Python semantics they mirror; the legal argument combinations are exactly the accepted ones.
    Only statements; proofs live in Proofs/ViewsSpecProofs.v and Proofs/ViewsIndexSpecProofs.v.
-   Models: NumPy/Views.v, NumPy/Indexing.v (what the code does).  Spec: NumPy/Spec.v (what PyTorch / Python document;
+   Models: NumPy/Views.v, NumPy/Indexing.v (what the code does).  Spec: NumPy/Spec.v (what the mirrored semantics says;
    written independently: dims wrapped with `mod`, results characterised by properties).
 
-   Naming: `<op>_accepts_iff_legal` / `<op>_matches_spec` are the full-strength statements (all ranks, shapes and
-   argument values).  Where the faithful model of the CURRENT code falsifies the full statement, the strongest true
-   restriction is proved as `..._partial` and the deviation is exhibited as `..._refuted` (all on degenerate inputs:
-   0-d tensors, zero-size dims, reshape entries < -1, repeated dims that squeeze does not notice); the same
-   inputs are reproduced on the real code by checks/ops_views.py (known findings E1-xxx).                          *)
+   Every `<op>_accepts_iff_legal` / `<op>_matches_spec` below is the full-strength statement: all ranks (0-d included),
+   all shapes (zero-size dims included), all argument values.  Which reference each op follows for 0-d operands:
+   flatten and squeeze wrap dims like PyTorch (a 0-d tensor has the dims 0/-1; the code says so itself), movedim /
+   transpose / unfold follow NumPy's axis rule (a 0-d array has no axis); reshape follows ndarray.reshape (at most
+   one negative entry = the unknown dimension).  See notes/E1_views.md for the reclassified items.                 *)
 From Coq Require Import List Bool Arith ZArith.
 Import ListNotations.
 From SG Require Import Base.Sums Base.Cmp NumPy.Gather NumPy.Index NumPy.Tensor NumPy.ViewsAux NumPy.Views NumPy.Indexing NumPy.Spec.
@@ -17,72 +17,48 @@ From SG Require Import Proofs.ViewsAuxProofs Proofs.ViewsReshapeProofs Proofs.Vi
 
 
 (* ---- reshape *)
-(* for targets whose entries are >= -1: accepted iff at most one -1, the known entries multiply to the size (no -1) or divide it with a positive product (one -1) *)
-Theorem reshape_accepts_iff_legal_partial :
-  forall (sh : shape) (t : list Z),
-         Forall (fun z : Z => (-1 <= z)%Z) t -> fwd_reshape sh t <> None <-> legal_reshape sh t.
-Proof. exact reshape_accepts_iff_legal_partial. Qed.
-Goal True. idtac "ASSUMPTIONS reshape_accepts_iff_legal_partial". Abort.
-Print Assumptions reshape_accepts_iff_legal_partial.
+(* accepted iff at most one negative entry and the known entries multiply to the size (none) or divide it with a positive product (one) *)
+Theorem reshape_accepts_iff_legal :
+  forall (sh : shape) (t : list Z), fwd_reshape sh t <> None <-> legal_reshape sh t.
+Proof. exact reshape_accepts_iff_legal. Qed.
+Goal True. idtac "ASSUMPTIONS reshape_accepts_iff_legal". Abort.
+Print Assumptions reshape_accepts_iff_legal.
 
 (* accepted => the explicit entries are kept, the size is kept, the elements keep their row-major order *)
-Theorem reshape_matches_spec_partial :
+Theorem reshape_matches_spec :
   forall (sh : shape) (t : list Z) (op : gather_op),
-         Forall (fun z : Z => (-1 <= z)%Z) t -> fwd_reshape sh t = Some op -> spec_reshape sh t op.
-Proof. exact reshape_matches_spec_partial. Qed.
-Goal True. idtac "ASSUMPTIONS reshape_matches_spec_partial". Abort.
-Print Assumptions reshape_matches_spec_partial.
-
-(* NumPy takes ANY negative entry for the unknown dimension: x(2).reshape((-2,)) is accepted (PyTorch rejects) *)
-Theorem reshape_accepts_iff_legal_refuted :
-  exists (sh : shape) (t : list Z), fwd_reshape sh t <> None /\ ~ legal_reshape sh t.
-Proof. exact reshape_accepts_iff_legal_refuted. Qed.
-Goal True. idtac "ASSUMPTIONS reshape_accepts_iff_legal_refuted". Abort.
-Print Assumptions reshape_accepts_iff_legal_refuted.
+         fwd_reshape sh t = Some op -> spec_reshape sh t op.
+Proof. exact reshape_matches_spec. Qed.
+Goal True. idtac "ASSUMPTIONS reshape_matches_spec". Abort.
+Print Assumptions reshape_matches_spec.
 
 
-(* ---- flatten: every start/end incl. negatives *)
-(* accepted => both dims in [-max(n,1), max(n,1)) and start <= end after wrapping (every shape) *)
-Theorem flatten_accepted_is_legal :
-  forall (sh : shape) (s e : Z), fwd_flatten sh s e <> None -> legal_flatten sh s e.
-Proof. exact flatten_accepted_is_legal. Qed.
-Goal True. idtac "ASSUMPTIONS flatten_accepted_is_legal". Abort.
-Print Assumptions flatten_accepted_is_legal.
+(* ---- flatten: every start/end incl. negatives, every shape incl. 0-d and zero-size dims *)
+(* accepted iff both dims are in [-max(n,1), max(n,1)) and start <= end after wrapping *)
+Theorem flatten_accepts_iff_legal :
+  forall (sh : shape) (s e : Z), fwd_flatten sh s e <> None <-> legal_flatten sh s e.
+Proof. exact flatten_accepts_iff_legal. Qed.
+Goal True. idtac "ASSUMPTIONS flatten_accepts_iff_legal". Abort.
+Print Assumptions flatten_accepts_iff_legal.
 
-(* for shapes without a zero-size dim: accepted iff legal *)
-Theorem flatten_accepts_iff_legal_partial :
-  forall (sh : list nat) (s e : Z),
-         ~ In 0 sh -> fwd_flatten sh s e <> None <-> legal_flatten sh s e.
-Proof. exact flatten_accepts_iff_legal_partial. Qed.
-Goal True. idtac "ASSUMPTIONS flatten_accepts_iff_legal_partial". Abort.
-Print Assumptions flatten_accepts_iff_legal_partial.
-
-(* rank >= 1: result shape = prefix ++ [product of dims start..end] ++ suffix, element order unchanged *)
-Theorem flatten_matches_spec_partial :
-  forall (sh : list nat) (s e : Z) (op : gather_op),
-         sh <> [] -> fwd_flatten sh s e = Some op -> spec_flatten sh s e op.
-Proof. exact flatten_matches_spec_partial. Qed.
-Goal True. idtac "ASSUMPTIONS flatten_matches_spec_partial". Abort.
-Print Assumptions flatten_matches_spec_partial.
-
-(* 0-d: accepted and legal, but the result keeps shape () where torch.flatten / ndarray.flatten give (1,) *)
-Theorem flatten_0d_refuted :
-  exists op : gather_op,
-           fwd_flatten [] 0 (-1) = Some op /\ legal_flatten [] 0 (-1) /\ ~ spec_flatten [] 0 (-1) op.
-Proof. exact flatten_0d_refuted. Qed.
-Goal True. idtac "ASSUMPTIONS flatten_0d_refuted". Abort.
-Print Assumptions flatten_0d_refuted.
-
-(* x(0,3,2).flatten(1,2) is legal but rejected (reshape to (0,-1) cannot infer the unknown dim) *)
-Theorem flatten_zero_size_refuted :
-  legal_flatten [0; 3; 2] 1 2 /\ fwd_flatten [0; 3; 2] 1 2 = None.
-Proof. exact flatten_zero_size_refuted. Qed.
-Goal True. idtac "ASSUMPTIONS flatten_zero_size_refuted". Abort.
-Print Assumptions flatten_zero_size_refuted.
+(* result shape = prefix ++ [product of dims start..end] ++ suffix (0-d: (1,)), element order unchanged *)
+Theorem flatten_matches_spec :
+  forall (sh : shape) (s e : Z) (op : gather_op),
+         fwd_flatten sh s e = Some op -> spec_flatten sh s e op.
+Proof. exact flatten_matches_spec. Qed.
+Goal True. idtac "ASSUMPTIONS flatten_matches_spec". Abort.
+Print Assumptions flatten_matches_spec.
 
 
 (* ---- squeeze: dim None | int | tuple, dims that are not 1 silently skipped *)
-(* every accepted call (all ranks incl. 0-d): exactly the named axes of size 1 disappear, element order unchanged *)
+(* accepted iff every dim is in [-max(n,1), max(n,1)) and no dim is repeated after wrapping *)
+Theorem squeeze_accepts_iff_legal :
+  forall (sh : shape) (arg : sqarg), fwd_squeeze sh arg <> None <-> legal_squeeze sh arg.
+Proof. exact squeeze_accepts_iff_legal. Qed.
+Goal True. idtac "ASSUMPTIONS squeeze_accepts_iff_legal". Abort.
+Print Assumptions squeeze_accepts_iff_legal.
+
+(* exactly the named axes of size 1 disappear, element order unchanged *)
 Theorem squeeze_matches_spec :
   forall (sh : shape) (arg : sqarg) (op : gather_op),
          fwd_squeeze sh arg = Some op -> spec_squeeze sh arg op.
@@ -90,45 +66,9 @@ Proof. exact squeeze_matches_spec. Qed.
 Goal True. idtac "ASSUMPTIONS squeeze_matches_spec". Abort.
 Print Assumptions squeeze_matches_spec.
 
-(* rank >= 1: in-range, pairwise distinct dims are accepted *)
-Theorem squeeze_legal_accepted_partial :
-  forall (sh : list nat) (arg : sqarg),
-         sh <> [] -> legal_squeeze sh arg -> fwd_squeeze sh arg <> None.
-Proof. exact squeeze_legal_accepted_partial. Qed.
-Goal True. idtac "ASSUMPTIONS squeeze_legal_accepted_partial". Abort.
-Print Assumptions squeeze_legal_accepted_partial.
-
-(* rank >= 1: an accepted call has all its dims in range *)
-Theorem squeeze_accepted_in_range_partial :
-  forall (sh : list nat) (arg : sqarg),
-         sh <> [] ->
-         fwd_squeeze sh arg <> None ->
-         match sq_dims arg with
-         | Some l => forall z : Z, In z l -> wrap_dim (length sh) z <> None
-         | None => True
-         end.
-Proof. exact squeeze_accepted_in_range_partial. Qed.
-Goal True. idtac "ASSUMPTIONS squeeze_accepted_in_range_partial". Abort.
-Print Assumptions squeeze_accepted_in_range_partial.
-
-(* repeated dims are only noticed when the named axis has size 1: squeeze((0,0)) of a (2,) tensor is accepted *)
-Theorem squeeze_dup_refuted :
-  fwd_squeeze [2] (SqTuple [0%Z; 0%Z]) <> None /\ ~ legal_squeeze [2] (SqTuple [0%Z; 0%Z]).
-Proof. exact squeeze_dup_refuted. Qed.
-Goal True. idtac "ASSUMPTIONS squeeze_dup_refuted". Abort.
-Print Assumptions squeeze_dup_refuted.
-
-(* 0-d: squeeze(5) accepted (int dim never validated); squeeze((0,)) rejected though squeeze(0) is accepted *)
-Theorem squeeze_0d_refuted :
-  (fwd_squeeze [] (SqInt 5) <> None /\ ~ legal_squeeze [] (SqInt 5)) /\
-         legal_squeeze [] (SqTuple [0%Z]) /\ fwd_squeeze [] (SqTuple [0%Z]) = None.
-Proof. exact squeeze_0d_refuted. Qed.
-Goal True. idtac "ASSUMPTIONS squeeze_0d_refuted". Abort.
-Print Assumptions squeeze_0d_refuted.
-
 
 (* ---- unsqueeze: int | tuple (positions in the result) *)
-(* accepted iff every dim is in [-(n+k), n+k) and they are distinct after wrapping (all ranks, full strength) *)
+(* accepted iff every dim is in [-(n+k), n+k) and they are distinct after wrapping *)
 Theorem unsqueeze_accepts_iff_legal :
   forall (sh : shape) (arg : unsqarg), fwd_unsqueeze sh arg <> None <-> legal_unsqueeze sh arg.
 Proof. exact unsqueeze_accepts_iff_legal. Qed.
@@ -145,13 +85,12 @@ Print Assumptions unsqueeze_matches_spec.
 
 
 (* ---- movedim: every (source, destination) *)
-(* rank >= 1: accepted iff both dims are in [-n, n) *)
-Theorem movedim_accepts_iff_legal_partial :
-  forall (sh : list nat) (s d : Z),
-         sh <> [] -> fwd_movedim sh s d <> None <-> legal_movedim sh s d.
-Proof. exact movedim_accepts_iff_legal_partial. Qed.
-Goal True. idtac "ASSUMPTIONS movedim_accepts_iff_legal_partial". Abort.
-Print Assumptions movedim_accepts_iff_legal_partial.
+(* accepted iff both dims are in [-n, n) *)
+Theorem movedim_accepts_iff_legal :
+  forall (sh : shape) (s d : Z), fwd_movedim sh s d <> None <-> legal_movedim sh s d.
+Proof. exact movedim_accepts_iff_legal. Qed.
+Goal True. idtac "ASSUMPTIONS movedim_accepts_iff_legal". Abort.
+Print Assumptions movedim_accepts_iff_legal.
 
 (* output axis `destination` is input axis `source`, the other axes keep their relative order; out[j] = in[i] with i[sigma k] = j[k] *)
 Theorem movedim_matches_spec :
@@ -161,22 +100,14 @@ Proof. exact movedim_matches_spec. Qed.
 Goal True. idtac "ASSUMPTIONS movedim_matches_spec". Abort.
 Print Assumptions movedim_matches_spec.
 
-(* 0-d: PyTorch accepts dims 0/-1, np.moveaxis raises *)
-Theorem movedim_0d_refuted :
-  legal_movedim [] 0 0 /\ fwd_movedim [] 0 0 = None.
-Proof. exact movedim_0d_refuted. Qed.
-Goal True. idtac "ASSUMPTIONS movedim_0d_refuted". Abort.
-Print Assumptions movedim_0d_refuted.
-
 
 (* ---- transpose: every (dim0, dim1) *)
-(* rank >= 1: accepted iff both dims are in [-n, n) *)
-Theorem transpose_accepts_iff_legal_partial :
-  forall (sh : list nat) (a b : Z),
-         sh <> [] -> fwd_transpose sh a b <> None <-> legal_transpose sh a b.
-Proof. exact transpose_accepts_iff_legal_partial. Qed.
-Goal True. idtac "ASSUMPTIONS transpose_accepts_iff_legal_partial". Abort.
-Print Assumptions transpose_accepts_iff_legal_partial.
+(* accepted iff both dims are in [-n, n) *)
+Theorem transpose_accepts_iff_legal :
+  forall (sh : shape) (a b : Z), fwd_transpose sh a b <> None <-> legal_transpose sh a b.
+Proof. exact transpose_accepts_iff_legal. Qed.
+Goal True. idtac "ASSUMPTIONS transpose_accepts_iff_legal". Abort.
+Print Assumptions transpose_accepts_iff_legal.
 
 (* the two axes are swapped, the others stay *)
 Theorem transpose_matches_spec :
@@ -186,23 +117,15 @@ Proof. exact transpose_matches_spec. Qed.
 Goal True. idtac "ASSUMPTIONS transpose_matches_spec". Abort.
 Print Assumptions transpose_matches_spec.
 
-(* 0-d: PyTorch accepts dims 0/-1, np.swapaxes raises *)
-Theorem transpose_0d_refuted :
-  legal_transpose [] 0 0 /\ fwd_transpose [] 0 0 = None.
-Proof. exact transpose_0d_refuted. Qed.
-Goal True. idtac "ASSUMPTIONS transpose_0d_refuted". Abort.
-Print Assumptions transpose_0d_refuted.
-
 
 (* ---- unfold: every (dimension, size, step) *)
-(* rank >= 1: accepted iff dimension in [-n,n), size >= 1, step >= 1, size <= shape[dimension] *)
-Theorem unfold_accepts_iff_legal_partial :
-  forall (sh : list nat) (dimension size step : Z),
-         sh <> [] ->
+(* accepted iff dimension in [-n,n), size >= 1, step >= 1, size <= shape[dimension] *)
+Theorem unfold_accepts_iff_legal :
+  forall (sh : shape) (dimension size step : Z),
          fwd_unfold_dim sh dimension size step <> None <-> legal_unfold sh dimension size step.
-Proof. exact unfold_accepts_iff_legal_partial. Qed.
-Goal True. idtac "ASSUMPTIONS unfold_accepts_iff_legal_partial". Abort.
-Print Assumptions unfold_accepts_iff_legal_partial.
+Proof. exact unfold_accepts_iff_legal. Qed.
+Goal True. idtac "ASSUMPTIONS unfold_accepts_iff_legal". Abort.
+Print Assumptions unfold_accepts_iff_legal.
 
 (* shape: (L-size)/step+1 windows at `dimension`, window axis appended last; out[..., w, ..., k] = in[..., w*step+k, ...] *)
 Theorem unfold_matches_spec :
@@ -211,13 +134,6 @@ Theorem unfold_matches_spec :
 Proof. exact unfold_matches_spec. Qed.
 Goal True. idtac "ASSUMPTIONS unfold_matches_spec". Abort.
 Print Assumptions unfold_matches_spec.
-
-(* 0-d: PyTorch treats a 0-d tensor as one axis of size 1 (unfold(0,1,1) -> shape (1,)); the wrapper rejects every dimension *)
-Theorem unfold_0d_refuted :
-  legal_unfold [] 0 1 1 /\ fwd_unfold_dim [] 0 1 1 = None.
-Proof. exact unfold_0d_refuted. Qed.
-Goal True. idtac "ASSUMPTIONS unfold_0d_refuted". Abort.
-Print Assumptions unfold_0d_refuted.
 
 
 (* ---- indexing: slices per the Python language reference, x[k], x[[k1..km]] *)
@@ -297,6 +213,16 @@ Print Assumptions iter_yields_rows.
 Example flatten_example :
   option_map g_out (fwd_flatten [2;3;4;5] 1 (-2)) = Some [2;12;5] /\ legal_flatten [2;3;4;5] 1 (-2).
 Proof. split. vm_compute. reflexivity. exists 1, 2. repeat split; auto. Qed.
+
+(* the inputs of the repaired defects *)
+Example flatten_0d_example : option_map g_out (fwd_flatten [] 0 (-1)) = Some [1].
+Proof. vm_compute. reflexivity. Qed.
+Example flatten_zero_size_example : option_map g_out (fwd_flatten [0;3;2] 1 2) = Some [0;6].
+Proof. vm_compute. reflexivity. Qed.
+Example squeeze_repaired_examples :
+  fwd_squeeze [] (SqInt 5) = None /\ fwd_squeeze [2] (SqTuple [0;0]%Z) = None /\
+  option_map g_out (fwd_squeeze [] (SqTuple [0%Z])) = Some [] /\ option_map g_out (fwd_squeeze [] (SqInt (-1))) = Some [].
+Proof. vm_compute. repeat split; reflexivity. Qed.
 
 Example squeeze_example :
   option_map g_out (fwd_squeeze [1;3;1;2] (SqTuple [0; 1; -2]%Z)) = Some [3;2] /\ legal_squeeze [1;3;1;2] (SqTuple [0; 1; -2]%Z).
